@@ -436,6 +436,15 @@ def smallest(cands):
 
 
 def run_part(ctx):
+    # generated model of the test-set half: translated on every run from test_feasibility.py / generate_test_set.py
+    import translate_testset as T
+    ctx.gen_step("testset", T.translate, "C10_testset_gen",
+                 "harness/translate_testset.py (ast -> Gallina printer, A-normal form, for test_feasibility / convenience / do_all / "
+                 "print_summary of test_feasibility.py and gen of generate_test_set.py: names resolved to locals, canonical import "
+                 "names, builtins, module variables; assignments, tuple unpacking, dict item assignment, if-joins, for loops with "
+                 "carried variables and continue / break, with, try / except, f-strings, list comprehension; values, dispatch of "
+                 ".dot / np.dot / != / .item / len / sum / int / split / join / os.path.join / splitext and the log of external calls "
+                 "are defined in coq/theories/PyTestSet.v; hand-written call sequences in coq/theories/TestSetHand.v)")
     rng = ctx.rng
     try:
         frag = GenFragments()
